@@ -261,9 +261,15 @@ def lattice_configs(ctx: Ctx, rng: random.Random, limit: int) -> None:
         ctx.sample({"verts": cfg["verts"], "laws": meta[rec["id"]]["kinds"], "req": req})
         # the same mesh written once more after one of its vertices was moved (no backport): sizes and ratios are those of
         # the geometry as it is now, on every edge and from either block - nothing of the first write is left
-        if "arc" not in kinds and not cfg.get("sandwich") and rng.random() < 0.8:
+        if "arc" not in kinds and not cfg.get("sandwich"):
             try:
-                v = rng.choice(list(mesh.vertices))
+                # (a vertex that two or more blocks share, where there is one: the edges at it are graded from several sides)
+                users: Dict[int, int] = {}
+                for blk in mesh.blocks:
+                    for vv in blk.vertices:
+                        users[vv.index] = users.get(vv.index, 0) + 1
+                shared_vs = [vv for vv in mesh.vertices if users.get(vv.index, 0) > 1]
+                v = rng.choice(shared_vs or list(mesh.vertices))
                 d = [rng.choice([-1, 1]) * rng.uniform(0.1, 0.2) * scale for _ in range(3)]
                 v.move_to([v.position[i] + d[i] for i in range(3)])
                 force_schedule(mesh, random.Random(rng.random()))
